@@ -17,6 +17,8 @@ DecRes(e) == Decode(e.type, e.b, EmptyMsg, DecLimit(e), e.discard)
 DecErr(e, r) == IF ~r.ok THEN "error" ELSE IF ~e.partial /\ ~Initialized(e.type, r.m) THEN "required" ELSE ""
 DecExpect(e) == LET r == DecRes(e) IN
                 [err |-> DecErr(e, r), obj |-> IF r.ok THEN ToProj(r.m) ELSE ToProj(Dirty), bounded |-> TRUE, vok |-> TRUE]
+\* "chk" is present when the decoded message breaks the protoreflect contract or, after a FAILED decode, when some
+\* operation on the message left behind panics (totality: unspecified content, but every operation returns)
 DecAgree(e) ==
   LET r == DecRes(e)  o == e.out IN
   /\ "panic" \notin DOMAIN o
